@@ -172,6 +172,30 @@ fn all_entries(t: &[u8]) -> Vec<&'static str> {
             let _ = sonic_rs::get(&st, &["a"]).map(|v| v.as_raw_str().len());
         }
     });
+    // `Deserializer::deserialize` "can be used repeatedly": also after it has reported an error
+    ep!("again", {
+        macro_rules! again {
+            ($t:ty, $de:expr) => {{
+                let mut de = $de;
+                for _ in 0..3 {
+                    match de.deserialize::<$t>() {
+                        Ok(_) => {}
+                        Err(e) => {
+                            let _ = format!("{} {:?}", e, e);
+                        }
+                    }
+                }
+            }};
+        }
+        again!(Value, sonic_rs::Deserializer::from_slice(t));
+        again!(serde_json::Value, sonic_rs::Deserializer::from_slice(t));
+        again!(LazyValue, sonic_rs::Deserializer::from_slice(t));
+        again!(sonic_rs::OwnedLazyValue, sonic_rs::Deserializer::from_slice(t));
+        again!(serde::de::IgnoredAny, sonic_rs::Deserializer::from_slice(t));
+        again!(String, sonic_rs::Deserializer::from_slice(t));
+        again!(Value, sonic_rs::Deserializer::from_slice(t).utf8_lossy());
+        again!(Value, sonic_rs::Deserializer::from_slice(t).use_rawnumber());
+    });
     ep!("outlive", outlive(t, &mut bad));
     bad
 }
